@@ -15,7 +15,13 @@ Isotopes(el) ==
       [] el = "O" -> { <<MonoMass("O"), 99757000>>, <<MonoMass("17O"), 38000>>, <<MonoMass("18O"), 205000>> }
       [] el = "S" -> { <<MonoMass("S"), 94990000>>, <<MonoMass("33S"), 750000>>, <<MonoMass("34S"), 4250000>>, <<MonoMass("36S"), 10000>> }
       [] el = "P" -> { <<MonoMass("P"), AUnit>> }
-ExactElements == {"H", "C", "N", "O", "S", "P"}
+      [] el = "Cl" -> { <<MonoMass("Cl"), 75760000>>, <<MonoMass("37Cl"), 24240000>> }
+      [] el = "Br" -> { <<MonoMass("Br"), 50690000>>, <<MonoMass("81Br"), 49310000>> }
+      [] el = "Fe" -> { <<MonoMass("54Fe"), 5845000>>, <<MonoMass("Fe"), 91754000>>, <<MonoMass("57Fe"), 2119000>>,
+                        <<MonoMass("58Fe"), 282000>> }
+      [] el = "Se" -> { <<MonoMass("74Se"), 890000>>, <<MonoMass("76Se"), 9370000>>, <<MonoMass("77Se"), 7630000>>,
+                        <<MonoMass("78Se"), 23770000>>, <<MonoMass("Se"), 49610000>>, <<MonoMass("82Se"), 8730000>> }
+ExactElements == {"H", "C", "N", "O", "S", "P", "Cl", "Br", "Fe", "Se"}
 
 (* a * b / 1e8 for abundances in 1e-8 units (rounded down) *)
 MulA(a, b) == LET ah == a \div 10000  al == a % 10000  bh == b \div 10000  bl == b % 10000 IN
